@@ -348,6 +348,9 @@ func count(s *sub) int {
 	return per
 }
 
+// writeReplay stores the failing case.  While rapid shrinks, every failing
+// attempt passes through here; each overwrites the sub-check's scratch file, so
+// only the last (minimal) one survives and is given its final name by Main.
 func writeReplay(subName string, c any, msg string) string {
 	cj, err := json.Marshal(c)
 	if err != nil {
@@ -355,15 +358,27 @@ func writeReplay(subName string, c any, msg string) string {
 	}
 	rf := ReplayFile{Property: Property, Sub: subName, Msg: msg, Case: cj}
 	data, _ := json.MarshalIndent(rf, "", " ")
-	sum := sha256.Sum256(cj)
 	dir := ReplayDir
 	if dir == "" {
 		dir = filepath.Join(os.TempDir(), "verif-replays")
 	}
 	os.MkdirAll(dir, 0o755)
-	path := filepath.Join(dir, subName+"-"+hex.EncodeToString(sum[:6])+".json")
+	path := filepath.Join(dir, fmt.Sprintf(".%s-shard%d.tmp", subName, Shard))
 	os.WriteFile(path, data, 0o644)
 	return path
+}
+
+func finalizeReplay(f Failure) Failure {
+	data, err := os.ReadFile(f.Replay)
+	if err != nil {
+		return f
+	}
+	sum := sha256.Sum256(data)
+	final := filepath.Join(filepath.Dir(f.Replay), f.Sub+"-"+hex.EncodeToString(sum[:6])+".json")
+	if os.Rename(f.Replay, final) == nil {
+		f.Replay = final
+	}
+	return f
 }
 
 var lastFailure = map[string]Failure{}
@@ -581,7 +596,7 @@ func Main(m *testing.M, property string) {
 	}
 	for _, s := range subs {
 		if f, ok := lastFailure[s.name]; ok {
-			shard.Failures = append(shard.Failures, f)
+			shard.Failures = append(shard.Failures, finalizeReplay(f))
 		}
 	}
 	shard.Done = true
